@@ -12,7 +12,11 @@ from typing import Any
 def canon(node: Any):
     # no import of lark at module level: works with whatever lark the repository's interpreter provides
     if hasattr(node, "data") and hasattr(node, "children"):
-        return ["T", str(node.data), [canon(c) for c in node.children]]
+        data = node.data
+        if hasattr(data, "type") and (str(data.type) != "RULE" or type(getattr(data, "value", None)) is not str or data.value != str(data)):
+            # the label is a lark Token('RULE', name) for rules without alias; one whose attributes say something else was tampered with
+            return ["T", str(data), [canon(c) for c in node.children], ["label", str(data.type), repr(getattr(data, "value", None))[:60]]]
+        return ["T", str(data), [canon(c) for c in node.children]]
     if hasattr(node, "type") and isinstance(node, str):
         value = getattr(node, "value", node)
         if type(value) is not str or value != str(node):
@@ -27,7 +31,7 @@ def canon(node: Any):
 def show(c, depth=0) -> str:
     """compact one-line rendering of a canonical tree for messages"""
     if c[0] == "T":
-        return c[1] + "(" + ", ".join(show(x) for x in c[2]) + ")"
+        return c[1] + (f"<label {c[3][1]} {c[3][2]}>" if len(c) > 3 else "") + "(" + ", ".join(show(x) for x in c[2]) + ")"
     if c[0] == "t":
         return f"{c[1]}:{c[2]}" + (f"<value {c[3][1]} {c[3][2]}>" if len(c) > 3 else "")
     return repr(c[1:])
